@@ -97,7 +97,7 @@ def _matches(val, m, done):
     return True
 
 
-def qc_table(prog: Program) -> RuleResult:
+def qc_table(prog: Program, hi: int = 4) -> RuleResult:
     r = RuleResult("QC-TABLE", "assert_satisfaction decision table equals the stated table in every ordering cell", floor=20)
     base = prog.cls(RQC)
     specs = {"Exactly", "AtLeast", "AtMost", "Range"}
@@ -122,7 +122,7 @@ def qc_table(prog: Program) -> RuleResult:
         )
         # cells: enumerate small integer models, group by orderings
         cells = {}
-        rng = range(0, 4)
+        rng = range(0, hi)
         for combo in itertools.product(rng, repeat=len(terms)):
             m = dict(zip(terms, combo))
             if c.name == "Range" and m["self.at_least.value"] > m["self.at_most.value"]:
@@ -453,4 +453,5 @@ def qc_map(prog: Program) -> RuleResult:
 
 
 def run(prog: Program, tier: str) -> List[RuleResult]:
-    return [qc_table(prog), qc_ctor(prog), qc_path(prog), qc_map(prog)]
+    # thorough: every cell is witnessed by all integer models up to 8 instead of 4 (same cells: the ordering domain is finite)
+    return [qc_table(prog, 9 if tier == "thorough" else 4), qc_ctor(prog), qc_path(prog), qc_map(prog)]
